@@ -1001,6 +1001,16 @@ class ServerSSM(SSM):
             self.response(abort)
             return
 
+        # only the first segment can open a transaction: a later segment
+        # that finds none is a stale duplicate or an overtaken frame of a
+        # transfer that is over, accepting it would start the request
+        # buffer in the middle of the message
+        if apdu.apduSeq != 0:
+            if _debug: ServerSSM._debug("    - not the first segment: %r", apdu.apduSeq)
+            abort = self.abort(AbortReason.invalidApduInThisState)
+            self.response(abort)
+            return
+
         # save the request and set the segmentation context
         self.set_segmentation_context(apdu)
 
